@@ -35,7 +35,37 @@ def batch(concepts, case):
     return fails
 
 
+def ctor(concepts, case):
+    return B.b19_ctor(concepts, case['objects'], case['properties'], case['rows'])
+
+
+def fromdict(concepts, case):
+    return B.b19_fromdict(concepts, case['dict'], case.get('flags', {}))
+
+
+def determinism(concepts, case):
+    """the literal experiment: the corpus item in separate interpreter processes under different hash seeds"""
+    import os, subprocess, sys
+    outs = {}
+    for seed in range(0, case.get('seeds', 40)):
+        env = dict(os.environ, PYTHONHASHSEED=str(seed))
+        r = subprocess.run([sys.executable, '-m', 'checks.c17_corpus', case['item']], capture_output=True, text=True,
+                           env=env, cwd=os.path.dirname(os.path.dirname(os.path.abspath(__file__))))
+        outs.setdefault(r.stdout.strip() or r.stderr.strip()[-300:], []).append(seed)
+        if len(outs) > 1:
+            break
+    if len(outs) > 1:
+        (a, sa), (b, sb) = list(outs.items())[:2]
+        i = next((k for k in range(min(len(a), len(b))) if a[k] != b[k]), 0)
+        return [f'item {case["item"]}: PYTHONHASHSEED={sa[0]} and {sb[0]} give different transcripts: '
+                f'...{a[max(0, i - 60):i + 60]}... vs ...{b[max(0, i - 60):i + 60]}...']
+    return []
+
+
 REPLAYERS = {
+    'determinism': determinism,
+    'ctor': ctor,
+    'fromdict': fromdict,
     'batch': batch,
     'predicates': predicates,
     'table:C08': table_battery(B.b08),
@@ -49,6 +79,7 @@ REPLAYERS = {
     'table:C10': table_battery(B.b10),
     'table:C18': table_battery(B.b18),
     'table:C20': table_battery(B.b20),
+    'table:C16': table_battery(B.b16),
     'derivation': derivation,
     'table:C01': table_battery(B.b01),
 }
